@@ -55,6 +55,10 @@ def weights_for(nq, kind):
         return [7.5 * (1.0 + 2.0 * q) for q in range(nq)]
     if kind == "int":            # multiplicities given as integers
         return [1, 6, 8, 12, 24, 3, 4, 2][:nq] if nq <= 8 else [1 + (q % 12) for q in range(nq)]
+    if kind == "zero-first":     # the first listed q-point (Gamma) carries weight 0 (a shifted mesh with Gamma kept in front)
+        return [0.0] + [1.0 + 2.0 * q for q in range(1, nq)]
+    if kind == "zero-last":
+        return [1.0 + 2.0 * q for q in range(nq - 1)] + [0.0]
     raise ValueError(kind)
 
 
